@@ -1588,3 +1588,69 @@ M("c12_first_chunk_sized_by_hint", ["C12"], ["C12.R7"], [
             ),
             ChunkClass::NonDummy(mut chunk) => {""")])
 
+
+# ---------------------------------------------------------------- round-5 rules
+M("c06_dedup_by_drops_before_advancing_read", ["C06", "C08"], ["C06.R11", "C08.R12"], [
+    ("src/bump_box.rs", """                    gap.read += 1;
+                    /* We have found duplicate, drop it in-place */
+                    ptr::drop_in_place(read_ptr);""", """                    /* We have found duplicate, drop it in-place */
+                    ptr::drop_in_place(read_ptr);
+                    gap.read += 1;""")])
+M("c08_dedup_by_compares_with_previous_read_slot", ["C08", "C06"], ["C08.R12", "C06.R11"], [
+    ("src/bump_box.rs", """                let prev_ptr = ptr.add(gap.write.wrapping_sub(1));""",
+     """                let prev_ptr = read_ptr.sub(1);""")])
+M("c06_dedup_by_method_form_drop", ["C06", "C08"], [], [
+    ("src/bump_box.rs", """                    /* We have found duplicate, drop it in-place */
+                    ptr::drop_in_place(read_ptr);""", """                    /* We have found duplicate, drop it in-place */
+                    read_ptr.drop_in_place();""")], negative=True)
+M("c08_keep_rest_tail_move_needs_unyielded", ["C08", "C06"], ["C08.R7", "C06.R8"], [
+    ("src/owned_slice/drain.rs", """                if tail != (start + unyielded_len) {
+                    let src = slice_ptr.add(tail);""", """                if unyielded_len != 0 && tail != (start + unyielded_len) {
+                    let src = slice_ptr.add(tail);""")])
+M("c02_alloc_try_with_compares_old_chunk", ["C02"], ["C02.R9"], [
+    ("src/bump_scope.rs", """        let pos = if S::UP { self.raw.chunk.get().pos() } else { ptr.cast() };
+
+        Ok(unsafe {
+            non_null::write_with(ptr, f);
+
+            // If `f` made allocations on this bump allocator we can't shrink the allocation.
+            let can_shrink = pos == self.raw.chunk.get().pos();""", """        let chunk_before = self.raw.chunk.get();
+        let pos = if S::UP { chunk_before.pos() } else { ptr.cast() };
+
+        Ok(unsafe {
+            non_null::write_with(ptr, f);
+
+            // If `f` made allocations on this bump allocator we can't shrink the allocation.
+            let can_shrink = pos == chunk_before.pos();""")])
+M("c02_alloc_try_with_chunk_read_once_after_callback", ["C02"], [], [
+    ("src/bump_scope.rs", """            non_null::write_with(ptr, f);
+
+            // If `f` made allocations on this bump allocator we can't shrink the allocation.
+            let can_shrink = pos == self.raw.chunk.get().pos();""", """            non_null::write_with(ptr, f);
+
+            // If `f` made allocations on this bump allocator we can't shrink the allocation.
+            let chunk_after = self.raw.chunk.get();
+            let can_shrink = pos == chunk_after.pos();"""),
+    ("src/bump_scope.rs", """                        // The allocation of was successful, so our chunk must be allocated.
+                        let chunk = self.raw.chunk.get().as_non_dummy_unchecked();
+                        chunk.set_pos_addr(new_pos);
+                    }
+
+                    BumpBox::from_raw(value)""", """                        // The allocation of was successful, so our chunk must be allocated.
+                        let chunk = chunk_after.as_non_dummy_unchecked();
+                        chunk.set_pos_addr(new_pos);
+                    }
+
+                    BumpBox::from_raw(value)""")], negative=True)
+M("c09_fixed_string_split_off_suffix_arm_capacity", ["C09", "C16", "C02"], ["C09.R10", "C16.R1", "C02.R6"], [
+    ("src/fixed_bump_string.rs", """                let lhs_cap = remaining_len;""", """                let lhs_cap = range_len;""")])
+M("c09_bump_string_display_writes_raw", ["C09"], ["C09.R11"], [
+    ("src/bump_string.rs", """        Display::fmt(self.as_str(), f)""", """        f.write_str(self.as_str())""")])
+M("c09_fixed_string_debug_prints_unquoted", ["C09"], ["C09.R11"], [
+    ("src/fixed_bump_string.rs", """        Debug::fmt(self.as_str(), f)""", """        Display::fmt(self.as_str(), f)""")])
+M("c19_pool_bumps_unwraps_poison", ["C19", "C07"], ["C19.R6", "C07.R11"], [
+    ("src/bump_pool.rs", """        self.bumps.get_mut().unwrap_or_else(PoisonError::into_inner)""", """        self.bumps.get_mut().unwrap()""")])
+M("c01_bump_down_wrapping_sub", ["C01", "C07"], ["C01.R17", "C07.R7"], [
+    ("src/lib.rs", """    let subtracted = addr.get().saturating_sub(size);""", """    let subtracted = addr.get().wrapping_sub(size);""")])
+M("c10_grow_size_doubles_capacity", ["C10", "C12"], ["C10.R8", "C12.R3"], [
+    ("src/raw_bump.rs", """        let Some(size) = self.size().get().checked_mul(2) else {""", """        let Some(size) = self.capacity().checked_mul(2) else {""")])
